@@ -110,27 +110,45 @@ def inst_ds(inst):
     return ds
 
 
+def classify_one(k, v):
+    if v == "" or v is None:
+        return "universal"
+    if isinstance(v, list):
+        return "uidlist"
+    if ref.VR[k] in ("DA", "TM") and "-" in v:
+        return "range"
+    if ("*" in v or "?" in v) and ref.VR[k] != "UI":
+        return "wildcard-" + ("lower" if v.lower() == v and v.upper() != v else "plain") + ("-sqlmeta" if "_" in v or "%" in v else "")
+    return "single" + ("-sqlmeta" if "_" in v or "%" in v else "")
+
+
 def classify(d):
     """matching types used, for keys of the violation"""
-    kinds = set()
-    for k, v in d.items():
-        if k == "QueryRetrieveLevel":
-            continue
-        if v == "" or v is None:
-            kinds.add("universal")
-        elif isinstance(v, list):
-            kinds.add("uidlist")
-        elif ref.VR[k] in ("DA", "TM") and "-" in v:
-            kinds.add("range")
-        elif ("*" in v or "?" in v) and ref.VR[k] != "UI":
-            kinds.add("wildcard-" + ("lower" if v.lower() == v and v.upper() != v else "plain") + ("-sqlmeta" if "_" in v or "%" in v else ""))
-        else:
-            kinds.add("single" + ("-sqlmeta" if "_" in v or "%" in v else ""))
+    kinds = {classify_one(k, v) for k, v in d.items() if k != "QueryRetrieveLevel"}
     # the most specific matching type present names the class of the case
-    for pri in ("uidlist", "universal", "wildcard-plain-sqlmeta", "wildcard-lower-sqlmeta", "single-sqlmeta", "wildcard-lower", "wildcard-plain", "range", "single"):
+    for pri in PRIORITY:
         if pri in kinds:
             return pri
     return "none"
+
+
+PRIORITY = ("uidlist", "universal", "wildcard-plain-sqlmeta", "wildcard-lower-sqlmeta", "single-sqlmeta", "wildcard-lower", "wildcard-plain", "range", "single")
+
+
+def culprit(root, level, d, db, extra):
+    """matching types of the identifier keys that (per the reference) exclude every instance of a wrongly returned entity"""
+    for e in sorted(extra, key=repr):
+        insts = [i for i in db if ref.entity_key(root, level, i) == e]
+        kinds = set()
+        for k, v in d.items():
+            if k == "QueryRetrieveLevel":
+                continue
+            if insts and all(ref.attr_match(k, v, i.get(k)) is False for i in insts):
+                kinds.add(classify_one(k, v))
+        for pri in PRIORITY:
+            if pri in kinds:
+                return pri
+    return classify(d)
 
 
 def eval_db(db_idx, db, idents, tmpdir):
@@ -182,6 +200,8 @@ def eval_db(db_idx, db, idents, tmpdir):
         missing = sure - got
         extra = got - sure - maybe
         if missing or extra:
+            if extra and not missing:
+                kind = f"{kind.split(':')[0]}:{culprit(root, level, d, db, extra)}"
             out.setdefault(f"{kind}:entities-{'missing' if missing else ''}{'extra' if extra else ''}", (f"db of {len(db)} instances, identifier {d}: returned entities {sorted(got)}, PS3.4 matching selects {sorted(sure)}" + (f" (optionally {sorted(maybe)})" if maybe else ""), {"db": db_idx, "model": model, "identifier": d}))
             continue
         if model in (PR_FIND, SR_FIND):
